@@ -144,7 +144,12 @@ def gen_case(rng, i, scratch, quick):
     if r < 0.06:
         case["drop"] = [rng.choice(["tree", "dirfiles", "dirfiles"]) if meta["kind"] == "dir" else "file"]
         meta["drop"] = True
-    elif r < 0.16:
+    elif r < 0.14 and kind != "same":
+        # a cache read fails during the restore (error, or the reader fails after the first byte); a second, fault-free
+        # restore (the next build) then has to repair whatever the failed one left behind
+        case["getfault"] = {"n": rng.randint(1, 6), "kind": rng.choice(["err", "err-mid"])}
+        meta["getfault"] = True
+    elif r < 0.22:
         outs = [list(o) for o in case["outputs"]]
         m = rng.choice(["perm", "extra", "retype", "rename", "fewer"]) if outs else "extra"
         if m == "perm":
@@ -207,6 +212,26 @@ def oracle(ctx, case, meta, x):
                       {"kind": "oracle", "oracle": "validate outputs", "request": case, "meta": meta, "impl": x}, signature="validate-rejects-match")
         return 1
     pkg = split(case["pkg"])
+    if case.get("getfault"):
+        for t, oid in outputs_of(case):
+            dst = pkg + split(oid)
+            b = S.canon(S.get(x["before"], dst))
+            if x.get("load") == "hang" or x.get("load2") == "hang":
+                bad += 1
+                ctx.violation("restore hangs when a cache read fails", {"kind": "oracle", "oracle": "read fault => error", "request": case, "meta": meta,
+                              "impl": {k: v for k, v in x.items() if k.startswith("load")}}, signature="restore-hangs")
+            elif x.get("load") == "ok" and S.canon(S.get(x["after"], dst)) != b:
+                bad += 1
+                ctx.violation("restore reported success although a cache read failed and the destination differs from what was cached",
+                              {"kind": "oracle", "oracle": "read fault => error or exact restore", "request": case, "meta": meta, "output": oid,
+                               "cached": b, "restored": S.canon(S.get(x["after"], dst))}, signature="read-fault-restore-ok-wrong-content")
+            elif x.get("load2") != "ok" or S.canon(S.get(x["after2"], dst)) != b:
+                bad += 1
+                ctx.violation("the restore after a restore that failed on a cache read does not reproduce the cached output",
+                              {"kind": "oracle", "oracle": "next restore repairs a half-restored output", "request": case, "meta": meta, "output": oid,
+                               "cached": b, "restored": S.canon(S.get(x.get("after2"), dst)), "load2": x.get("load2"), "load2_msg": x.get("load2_msg", "")},
+                              signature="half-restored-output-not-repaired")
+        return bad
     for t, oid in outputs_of(case):
         dst = pkg + split(oid)
         b = S.canon(S.get(x["before"], dst))
@@ -235,6 +260,15 @@ def oracle(ctx, case, meta, x):
 def compare(case, x, y):
     """fields on which model and implementation must agree"""
     diffs = []
+    if case.get("getfault"):
+        # the model does not know the fault: it predicts how many reads the restore makes; the fault is hit iff n <= that number
+        if x.get("write") != y.get("write"):
+            return ["write"]
+        if y.get("load") == "ok":
+            want = "err" if case["getfault"]["n"] <= y.get("gets", 0) else "ok"
+            if x.get("load") != want:
+                diffs.append("load-under-read-fault")
+        return diffs
     for k in ("write", "load"):
         if x.get(k) != y.get(k):
             diffs.append(k)
@@ -334,7 +368,7 @@ def run(ctx):
         model += S.model(ctx, reqs[i:i + chunk])
     ctx.coverage["evaluations"] = len(reqs)
     ctx.coverage["traces_validated_against_impl"] = len(reqs)
-    dist = {"kind": {}, "prior": {}, "load": {}, "depth": {}, "shortcut": 0, "dropped": 0, "declared2": 0, "multi": 0, "bin": 0}
+    dist = {"kind": {}, "prior": {}, "load": {}, "depth": {}, "shortcut": 0, "dropped": 0, "declared2": 0, "multi": 0, "bin": 0, "getfault": 0, "getfault_hit": 0}
     seen = set()
     disagreements = []
     oracle_fail = 0
@@ -345,7 +379,9 @@ def run(ctx):
         for k, v in (("kind", m["kind"]), ("prior", m["prior"]), ("load", x.get("load")), ("depth", str(m.get("depth")))):
             dist[k][v] = dist[k].get(v, 0) + 1
         dist["shortcut"] += 1 if x.get("load") == "ok" and x.get("gets") == 0 else 0
-        for k in ("drop", "declared2", "multi", "bin"):
+        if m.get("getfault") and x.get("load") == "err":
+            dist["getfault_hit"] += 1
+        for k in ("drop", "declared2", "multi", "bin", "getfault"):
             if m.get(k):
                 dist["dropped" if k == "drop" else k] += 1
         if x.get("write") == "ok" and (m.get("size", 0) >= 2 or m["kind"] == "file" and m.get("size", 0) >= 1):
